@@ -1,6 +1,7 @@
 package main
 
 import (
+	"bytes"
 	"context"
 	"crypto/tls"
 	"fmt"
@@ -580,8 +581,94 @@ func c11CallbackInProgress(r *Result) {
 	}
 }
 
+// c11Pipelined: "never aborts a request that is in flight" - for a request that had reached the server, whole, before Shutdown
+// was called, but whose turn had not come yet: the client wrote two (three) requests back to back, the handler of the first
+// is still running when Shutdown is called. Every one of them is answered; the connection is closed by nobody but the client.
+func c11Pipelined(r *Result) {
+	for _, n := range []int{2, 3} {
+		key := fmt.Sprintf("%d requests sent back to back, Shutdown called while the handler of the first is running, then the handler returns", n)
+		r.eval(key, true)
+		release := make(chan struct{})
+		entered := make(chan struct{}, 8)
+		var calls int32
+		s := &kmip.Server{}
+		s.Handle(kmip.OPERATION_ACTIVATE, func(ctx *kmip.RequestContext, item *kmip.RequestBatchItem) (interface{}, error) {
+			if atomic.AddInt32(&calls, 1) == 1 {
+				entered <- struct{}{}
+				<-release
+			}
+			return kmip.ActivateResponse{UniqueIdentifier: item.RequestPayload.(kmip.ActivateRequest).UniqueIdentifier}, nil
+		})
+		sc, cc := rec.Pipe()
+		rc := rec.NewConn(sc, 1)
+		l := rec.NewListener()
+		l.Push(rec.AcceptStep{Conn: rc})
+		init := make(chan struct{})
+		ret := make(chan error, 1)
+		go func() { ret <- s.Serve(l, init) }()
+		<-init
+		_ = cc.SetDeadline(time.Now().Add(6 * time.Second))
+		var all bytes.Buffer
+		for i := 0; i < n; i++ {
+			req := kmip.Request{Header: kmip.RequestHeader{Version: kmip.ProtocolVersion{Major: 1, Minor: 4}, BatchCount: 1},
+				BatchItems: []kmip.RequestBatchItem{{Operation: kmip.OPERATION_ACTIVATE, RequestPayload: kmip.ActivateRequest{UniqueIdentifier: fmt.Sprintf("id-%d", i)}}}}
+			_ = kmip.NewEncoder(&all).Encode(&req)
+		}
+		wrote := make(chan struct{})
+		go func() { _, _ = cc.Write(all.Bytes()); close(wrote) }()
+		select {
+		case <-entered:
+		case <-time.After(3 * time.Second):
+			r.find(Finding{Kind: "disagreement", What: "scenario did not reach the handler", Input: key})
+		}
+		select {
+		case <-wrote: // every request has been taken off the client's hands by the server
+		case <-time.After(3 * time.Second):
+			r.find(Finding{Kind: "disagreement", What: "scenario: the server did not take the pipelined requests", Input: key})
+		}
+		ctx, cancel := context.WithTimeout(context.Background(), 5*time.Second)
+		sdc := make(chan error, 1)
+		go func() { sdc <- s.Shutdown(ctx) }()
+		waitFor(func() bool { return l.IsClosed() }, 2*time.Second)
+		time.Sleep(20 * time.Millisecond)
+		close(release)
+		answered := 0
+		dec := kmip.NewDecoder(cc)
+		for i := 0; i < n; i++ {
+			var resp kmip.Response
+			if err := dec.Decode(&resp); err != nil {
+				break
+			}
+			if len(resp.BatchItems) == 1 && resp.BatchItems[0].ResultStatus == kmip.RESULT_STATUS_SUCCESS {
+				if p, ok := resp.BatchItems[0].ResponsePayload.(kmip.ActivateResponse); ok && p.UniqueIdentifier == fmt.Sprintf("id-%d", i) {
+					answered++
+				}
+			}
+		}
+		if answered != n {
+			r.find(Finding{Kind: "violation", What: "a request that had reached the server before Shutdown was called was dropped unanswered", Input: key, Expect: fmt.Sprintf("%d responses", n), Actual: fmt.Sprintf("%d responses, %d handler calls", answered, atomic.LoadInt32(&calls))})
+		}
+		cc.Close()
+		select {
+		case e := <-sdc:
+			if e != nil {
+				r.find(Finding{Kind: "violation", What: "Shutdown did not return nil after the last session ended", Input: key, Actual: fmt.Sprint(e)})
+			}
+		case <-time.After(6 * time.Second):
+			r.find(Finding{Kind: "violation", What: "Shutdown did not return after the last session ended", Input: key})
+		}
+		cancel()
+		select {
+		case <-ret:
+		case <-time.After(3 * time.Second):
+		}
+		r.Stats["pipelined-at-shutdown-scenarios"]++
+	}
+}
+
 func runC11(r *Result, d *drv.Driver, tier string, seed int64, replay string) {
 	c11CallbackInProgress(r)
+	c11Pipelined(r)
 	c11ShutdownFirst(r, d)
 	c11AfterServeFailed(r)
 	c11HandshakeFailure(r)
